@@ -149,6 +149,10 @@ func (rule Properties) AsRewriteRule(pkg string) (builder.RewriteRule, error) {
 		return nil, err
 	}
 
+	if err := validateStructFields(rule.Set); err != nil {
+		return nil, fmt.Errorf("properties: %w", err)
+	}
+
 	return builder.Properties(
 		selector,
 		rule.Set,
@@ -223,6 +227,10 @@ func (rule AddOption) AsRewriteRule(pkg string) (builder.RewriteRule, error) {
 		return nil, err
 	}
 
+	if err := validateOption(rule.Option); err != nil {
+		return nil, fmt.Errorf("add_option: %w", err)
+	}
+
 	return builder.AddOption(selector, rule.Option), nil
 }
 
@@ -235,6 +243,10 @@ func (rule AddFactory) AsRewriteRule(pkg string) (builder.RewriteRule, error) {
 	selector, err := rule.AsSelector(pkg)
 	if err != nil {
 		return nil, err
+	}
+
+	if err := validateFactory(rule.Factory); err != nil {
+		return nil, fmt.Errorf("add_factory: %w", err)
 	}
 
 	return builder.AddFactory(selector, rule.Factory), nil
